@@ -136,6 +136,21 @@ def gen_ParseConsts(repo):
     thr = re.findall(r"options->prefer_cif2\s*(>=|<=|>|<)\s*(\d+)", cp)
     thr_txt = ["%s%s" % t for t in thr]
 
+    # which cascade is this?  (findings G4 / G3)
+    n_named = len(re.findall(r"encoding_name\s*=\s*options->default_encoding_name\s*;", cp))
+    n_null = len(re.findall(r"encoding_name\s*=\s*NULL\s*;", cp))
+    if (n_named, n_null) == (1, 1):
+        fallback_named = False
+    elif (n_named, n_null) == (2, 0):
+        fallback_named = True
+    else:
+        raise TranslateError("cif_parse: %d assignments of default_encoding_name and %d of NULL to encoding_name; the model knows "
+                             "(1,1) and (2,0)" % (n_named, n_null))
+    m = re.search(r"memcmp\s*\(\s*char_buffer\s*,\s*CIF2_UTF8_MAGIC\s*,\s*MAGIC_LENGTH\s*\+\s*MAGIC_EXTRA\s*\)\s*==\s*0\s*\)(.*?)\{", cp, re.S)
+    if not m:
+        raise TranslateError("cif_parse: the raw CIF 2.0 magic test was not found")
+    magic_ws = bool(re.search(r"char_buffer\s*\[", m.group(1)))
+
     L = ["/-", "  GENERATED by tools/translate_consts.py from /repo's working tree — do not edit.",
          "  Source: src/cif.h, src/parser.c, src/ciffile.c, src/internal/value.h", "-/",
          "namespace CifModel.Gen.ParseConsts", ""]
@@ -151,6 +166,12 @@ def gen_ParseConsts(repo):
     L.append("/-- get_first_char() converts a CR read as its look-ahead unit and marks it pending (the proposed repair of")
     L.append("    finding C08/G1); `false` = the look-ahead unit is left as read -/")
     L.append("def firstCharFoldsSecondCR : Bool := %s" % ("true" if folds_second else "false"))
+    L.append("")
+    L.append("/-- the last branch of cif_parse()'s cascade passes default_encoding_name to the converter (repair of finding G4);")
+    L.append("    `false` = it passes NULL (the system default) -/")
+    L.append("def fallbackUsesNamedDefault : Bool := %s" % ("true" if fallback_named else "false"))
+    L.append("/-- the raw CIF 2.0 magic test of cif_parse() also inspects the byte after the magic code (repair of finding G3) -/")
+    L.append("def rawMagicChecksFollowingByte : Bool := %s" % ("true" if magic_ws else "false"))
     L.append("")
     L.append("/-- comparisons of `options->prefer_cif2` in cif_parse(), in textual order (operator, literal) -/")
     L.append("def preferTests : List (List Nat × Nat) := [%s]" % ", ".join(
